@@ -401,13 +401,12 @@ def escape : Name → Name
      else if c = 34 then [38, 113, 117, 111, 116, 59]  -- &quot;
      else [c]) ++ escape r
 
-/-- decimal digits, most significant first; fuel = n + 1 is plenty -/
-def decimalAux : Nat → Nat → List Nat → List Nat
-  | 0, _, acc => acc
-  | fuel + 1, n, acc =>
-    if n < 10 then (48 + n) :: acc else decimalAux fuel (n / 10) ((48 + n % 10) :: acc)
+/-- decimal digits, most significant first; fuel `n` is plenty -/
+def decimalAux : Nat → Nat → List Nat
+  | 0, n => [48 + n % 10]
+  | fuel + 1, n => if n < 10 then [48 + n] else decimalAux fuel (n / 10) ++ [48 + n % 10]
 
-def decimal (n : Nat) : List Nat := decimalAux (n + 1) n []
+def decimal (n : Nat) : List Nat := decimalAux n n
 
 /-- well-nested event sequences: the element stack `ns` (innermost first) is closed exactly by the
 rest of the sequence; `bad` never occurs -/
